@@ -119,6 +119,30 @@ pub fn applied_take() -> Vec<([u8; 16], u64)> {
     std::mem::take(&mut *APPLIED.lock().unwrap())
 }
 
+static SERVED: Mutex<Vec<([u8; 16], [u8; 16], u16, u16)>> = Mutex::new(Vec::new());
+
+/// a sync session was opened towards this node: (server, client, cluster the client declared,
+/// server's cluster at that moment)
+pub fn served_push(server: [u8; 16], client: [u8; 16], declared: u16, own: u16) {
+    SERVED.lock().unwrap().push((server, client, declared, own));
+}
+
+pub fn served_take() -> Vec<([u8; 16], [u8; 16], u16, u16)> {
+    std::mem::take(&mut *SERVED.lock().unwrap())
+}
+
+static UNI_SEEN: Mutex<Vec<(u16, u16)>> = Mutex::new(Vec::new());
+
+/// a broadcast frame reached a uni-stream handler: (cluster declared in the frame, cluster the
+/// handler compares with), recorded before the filter
+pub fn uni_seen_push(declared: u16, own: u16) {
+    UNI_SEEN.lock().unwrap().push((declared, own));
+}
+
+pub fn uni_seen_take() -> Vec<(u16, u16)> {
+    std::mem::take(&mut *UNI_SEEN.lock().unwrap())
+}
+
 /// a subscription matcher finished processing one batch of candidates
 pub fn batch_done() {
     BATCHES.fetch_add(1, Ordering::SeqCst);
